@@ -241,3 +241,107 @@ Lemma single_snapshot_example :
   Forall fresh_thread [new_request; new_reload 2 true] /\
   nth_error (threads st) 0 = Some (TReq (mkRequest 6 (Some 1) [1;1;1] (Some 1) false)) /\ conf (sh st) = 2.
 Proof. vm_compute. repeat split; auto; repeat constructor. Qed.
+
+(* ---------------------------------------------------------------- BalTable RWMutex protocol *)
+Definition at_pc (k : nat) (t : thread) : nat :=
+  match t with TGslb g => if Nat.eqb (gl_pc g) k then 1%nat else 0%nat | _ => 0%nat end.
+Definition tot (f : thread -> nat) (ts : list thread) : nat := fold_right (fun t a => (f t + a)%nat) 0%nat ts.
+
+Lemma tot_upd f : forall ts i t t', nth_error ts i = Some t ->
+  (tot f (upd_nth ts i t') + f t = tot f ts + f t')%nat.
+Proof.
+  induction ts as [|y ts IH]; intros [|i] t t' H; simpl in *; try discriminate.
+  - inversion H; subst. lia.
+  - specialize (IH i t t' H). lia.
+Qed.
+
+Definition b2n (b : bool) : nat := if b then 1%nat else 0%nat.
+
+Definition mid_free (t : thread) : Prop := match t with TReq q => rq_mid q = false | _ => True end.
+
+Definition bal_inv (st : state) : Prop :=
+  (tot (at_pc 2) (threads st) + tot (at_pc 3) (threads st) + tot (at_pc 4) (threads st) = b2n (bal_w (sh st)))%nat /\
+  (bal_mid (sh st) = true -> (1 <= tot (at_pc 3) (threads st))%nat) /\
+  Forall mid_free (threads st).
+
+Lemma Forall_upd_nth {A} (P : A -> Prop) : forall l i x, Forall P l -> P x -> Forall P (upd_nth l i x).
+Proof.
+  induction l as [|y l IH]; intros [|i] x H Hx; simpl; auto; inversion H; subst; constructor; auto.
+Qed.
+
+Lemma bal_inv_step st j : bal_inv st -> bal_inv (step st j).
+Proof.
+  intros (Hs & Hm & Hf). unfold step.
+  destruct (nth_error (threads st) j) as [t|] eqn:Hj; [|unfold bal_inv; auto].
+  pose proof (fun t' => tot_upd (at_pc 2) _ _ _ t' Hj) as U2.
+  pose proof (fun t' => tot_upd (at_pc 3) _ _ _ t' Hj) as U3.
+  pose proof (fun t' => tot_upd (at_pc 4) _ _ _ t' Hj) as U4.
+  assert (Hft : mid_free t). { rewrite Forall_forall in Hf. apply Hf. eapply nth_error_In; eauto. }
+  destruct t as [r|g|q]; simpl.
+  - (* reload threads never touch the balancer-table lock *)
+    destruct (step_reload (sh st) r) as [s' r'] eqn:E.
+    assert (bal_w s' = bal_w (sh st) /\ bal_mid s' = bal_mid (sh st)) as [E1 E2].
+    { unfold step_reload in E. destruct (rl_pc r) as [|[|[|[|[|[|[|n]]]]]]];
+        try destruct (rl_ok r); try destruct (conf_w (sh st)); try destruct (bal_w (sh st)) eqn:Ew;
+        inversion E; subst; simpl; auto. }
+    unfold bal_inv; simpl. specialize (U2 (TReload r')). specialize (U3 (TReload r')). specialize (U4 (TReload r')).
+    simpl in *. rewrite E1, E2. repeat split; try lia.
+    + intros K. specialize (Hm K). lia.
+    + apply Forall_upd_nth; simpl; auto.
+  - destruct (step_greload (sh st) g) as [s' g'] eqn:E.
+    specialize (U2 (TGslb g')). specialize (U3 (TGslb g')). specialize (U4 (TGslb g')).
+    unfold bal_inv; simpl.
+    assert (Ff : Forall mid_free (upd_nth (threads st) j (TGslb g'))) by (apply Forall_upd_nth; simpl; auto).
+    unfold step_greload in E.
+    destruct (gl_pc g) as [|[|[|[|[|[|[|[|n]]]]]]]] eqn:Epc; simpl in *; rewrite ?Epc in *; simpl in *;
+      try destruct (bal_w (sh st)) eqn:Ew; try destruct (conf_w (sh st)) eqn:Ec;
+      inversion E; subst; simpl in *; rewrite ?Epc, ?Ew in *; simpl in *;
+      try solve [repeat split; auto; try lia; try discriminate;
+                 try (let K := fresh in intros K; specialize (Hm K); lia)].
+  - (* a request only reads; its balancer lookup runs under RLock, i.e. only while no writer holds the lock *)
+    specialize (U2 (TReq (step_request (sh st) q))). specialize (U3 (TReq (step_request (sh st) q))).
+    specialize (U4 (TReq (step_request (sh st) q))).
+    unfold bal_inv; simpl in *. repeat split; try lia.
+    + intros K. specialize (Hm K). lia.
+    + apply Forall_upd_nth; auto. simpl. unfold step_request.
+      destruct (rq_pc q) as [|[|[|[|[|[|n]]]]]]; simpl; auto.
+      * destruct (conf_w (sh st)); simpl; auto.
+      * destruct (bal_w (sh st)) eqn:Ew; simpl; auto.
+        destruct (bal_mid (sh st)) eqn:Em; auto. specialize (Hm eq_refl). simpl in Hs. lia.
+Qed.
+
+Lemma bal_inv_exec sched : forall st, bal_inv st -> bal_inv (exec st sched).
+Proof.
+  induction sched as [|j r IH]; intros st H; [exact H|].
+  unfold exec in *. simpl. apply IH. apply bal_inv_step. exact H.
+Qed.
+
+Lemma tot_fresh k ts : (1 <= k)%nat -> Forall fresh_thread ts -> tot (at_pc k) ts = 0%nat.
+Proof.
+  intros Hk H. induction H as [|t ts Ht _ IH]; simpl; auto. rewrite IH.
+  destruct t as [r|g|q]; simpl in *; auto. rewrite Ht. destruct k; [lia|reflexivity].
+Qed.
+
+Lemma bal_inv_init v g ts : Forall fresh_thread ts -> bal_inv (mkState (init_shared v g) ts).
+Proof.
+  intros H. unfold bal_inv; simpl. rewrite !tot_fresh by (auto; lia). repeat split; auto; try discriminate.
+  rewrite Forall_forall in *. intros t Ht. specialize (H t Ht). destruct t; simpl in *; auto. subst. reflexivity.
+Qed.
+
+(* BalTableReload vs Lookup: in every interleaving, no request ever looks its cluster up in the half-built table that
+   exists between "delete old entries" and "t.balTable = bmNew" inside BalTableReload. *)
+Theorem baltable_lock :
+  forall (v g : Z) (ts : list thread) (sched : list nat),
+    Forall fresh_thread ts ->
+    forall i q, nth_error (threads (exec (mkState (init_shared v g) ts) sched)) i = Some (TReq q) -> rq_mid q = false.
+Proof.
+  intros v g ts sched Hf i q Hq.
+  destruct (bal_inv_exec sched _ (bal_inv_init v g ts Hf)) as (_ & _ & H).
+  rewrite Forall_forall in H. apply (H (TReq q)). eapply nth_error_In; eauto.
+Qed.
+
+(* and the protocol matters: without the lock a lookup can hit the half-built table *)
+Lemma baltable_example :
+  let st := exec (mkState (init_shared 1 1) [new_greload 2; new_request]) [0;0;0;1;1;1;1;1;0;0;1]%nat in
+  nth_error (threads st) 1 = Some (TReq (mkRequest 5 (Some 1) [1;1;1] (Some 2) false)).
+Proof. reflexivity. Qed.
